@@ -76,6 +76,13 @@ class DecodeState:
             odxraise("The bit length of FLOAT64 values must be 64 bits")
             bit_length = 64
 
+        if bit_length % 8 != 0 and base_data_type in (DataType.A_BYTEFIELD, DataType.A_UTF8STRING,
+                                                      DataType.A_ASCIISTRING,
+                                                      DataType.A_UNICODE2STRING):
+            # e.g., because the length was specified by a length key parameter
+            raise DecodeError(f"The bit length of {base_data_type.value} objects "
+                              f"must be a multiple of 8 (is: {bit_length})")
+
         byte_length = (bit_length + self.cursor_bit_position + 7) // 8
         if self.cursor_byte_position + byte_length > len(self.coded_message):
             raise DecodeError(f"Expected a longer message.")
